@@ -10,8 +10,8 @@ CONSTANTS
   VDom = {TRUE}
   HasF = FALSE
   HasV = FALSE
-  RunOps = {"krig_u", "krig_m", "krig_mb", "neigh_u", "neigh_m", "neigh_mb", "xvalid_u", "xvalid_m", "vario", "vario_cov", "stat", "stat_iso", "cov", "cov_sym", "drift", "simtub", "simtub_pt", "simtub_exp", "migrate", "migrate_ball", "migrate_grid", "migrate_fill", "reduce"}
+  RunOps = {"krig_u", "krig_m", "krig_mb", "neigh_u", "neigh_m", "neigh_mb", "xvalid_u", "xvalid_m", "vario", "vario_cov", "stat", "stat_iso", "cov", "cov_sym", "drift", "simtub", "simtub_pt", "simtub_exp", "migrate", "migrate_ball", "migrate_grid", "migrate_fill", "reduce", "cov_req", "cov_sym_req", "drift_req", "ranks_req", "krig_on", "simtub_on", "simtub_on_grid"}
   EmitMin = 1
-INVARIANT ModelImplementsReduce ReduceIsSound ReduceExtremes
+INVARIANT ModelImplementsReduce ReduceIsSound ReduceVarIsSound ReduceExtremes
 CONSTRAINT Emit
 CHECK_DEADLOCK FALSE
